@@ -225,6 +225,16 @@ def check_binop(mod, R, cname, name, fn):
             else:
                 raise AnalysisError('%s returns through an unmodelled wrapper: %s' % (key, u(ret)))
             continue
+        if wrap is None and isinstance(ret.func, ast.Attribute) and isinstance(ret.func.value, ast.Call) and u(ret.func.value.func) in ('self.__class__', 'type(self)') \
+                and [u(a) for a in ret.func.value.args] == [y] and [u(a) for a in ret.args] == ['self'] and ret.func.attr == '__%s__' % opname and reflected:
+            # y OP self computed as T(y).__OP__(self): the plain left operand is reduced modulo 2^n first -- exact only when OP commutes with the reduction
+            if opname in ('add', 'sub', 'mul', 'and', 'or', 'xor', 'lshift'):
+                R.ok(inst, sample='%s reduces the left operand first: exact for %s (a ring / bitwise operation)' % (key, OPNAME.get(pyop, opname)))
+            else:
+                R.violation(inst, key + ':reduced-left:' + opname, '%s computes %s: the plain left operand is reduced modulo 2^n before %s is applied, and %s does not commute with that '
+                            'reduction (the exact result reduced modulo 2^n is something else for an operand outside the range of the type)'
+                            % (name, u(ret), OPNAME.get(pyop, opname), OPNAME.get(pyop, opname)), where(mod, fn), witness='300 % uint8(7) gives 2 (44 % 7), the exact remainder is 6')
+            continue
         if wrap is None:
             raise AnalysisError('%s returns through an unmodelled wrapper: %s' % (key, u(ret)))
         e = ret.args[0]
